@@ -127,7 +127,7 @@ func mutate(r *rng, f string, doc []byte, other []byte) []byte {
 }
 
 func suiteTotality(R *runner, r *rng) {
-	R.rule("totality: every reader (6 readers x option values incl. SSA callbacks nil / partly set, and the extension-dispatching opener) on valid documents of every format, on structure-aware mutations / truncations / splices of them (format keywords inserted, lines deleted, fixed-width fields overwritten), on documents of the wrong format and on arbitrary bytes, under recover() and a 5 s watchdog; every writer on cue lists assembled from the public types with every optional part (metadata, maps, styles, regions, inline attributes, lines, runs) possibly absent, map keys differing from the element identifiers, nil map elements and hostile text (leading combining marks, control characters, non-BMP, invalid UTF-8); oracle: no panic, no hang; non-trivial = the call returned a value rather than an error")
+	R.rule("totality: every reader (6 readers x option values incl. SSA callbacks nil / partly set, and the extension-dispatching opener) on valid documents of every format, on structure-aware mutations / truncations / splices of them (format keywords inserted, lines deleted, fixed-width fields overwritten), on documents of the wrong format and on arbitrary bytes, under recover() and a 5 s watchdog; every writer on cue lists assembled from the public types with every optional part (metadata, maps, styles, regions, inline attributes, lines, runs) possibly absent, map keys differing from the element identifiers, nil map elements, nil elements inside Items (same bytes as without them) and hostile text (leading combining marks, control characters, non-BMP, invalid UTF-8); oracle: no panic, no hang; non-trivial = the call returned a value rather than an error")
 	docs := sampleDocs(r, 3, false)
 	docs = append(docs, tsSampleDocs(r)...)
 	readers := allReaders()
@@ -286,6 +286,46 @@ func suiteTotality(R *runner, r *rng) {
 			Human: map[string]interface{}{"writer": f.name, "metadata_nil": s.Metadata == nil, "styles_nil": s.Styles == nil, "regions_nil": s.Regions == nil, "cues": len(s.Items), "list": describeRich(s)}}
 		if res != "" {
 			o.Oracle, o.Sig = f.name+" writer: "+res, "total-write-"+f.name+siteOf(res)
+		}
+		R.add(o)
+	}
+
+	// nil elements inside Items (a value of the public type []*Item): every writer skips them - no panic, and the same
+	// bytes / the same error as for the list without them (metamorphic, no model involved)
+	for c := 0; c < N/4; c++ {
+		seed := r.u64()
+		mk := func() *astisub.Subtitles {
+			return richSubs(newRng(seed), richOpts{safe: false, hostile: c%2 == 0, maxStyles: 4, maxItems: 4})
+		}
+		f := formats[c%len(formats)]
+		s := mk()
+		cl := *s // the same value (maps, metadata, item pointers) without the nil items
+		cl.Items = append([]*astisub.Item{}, s.Items...)
+		clean := &cl
+		pr := newRng(seed ^ 0x9e3779b97f4a7c15)
+		var pos []int
+		if c%9 == 0 {
+			clean.Items = nil // nothing but nil items
+			s.Items = make([]*astisub.Item, 1+pr.intn(3))
+		} else {
+			for k := 1 + pr.intn(3); k > 0; k-- {
+				p := pr.intn(len(s.Items) + 1)
+				pos = append(pos, p)
+				s.Items = append(s.Items[:p:p], append([]*astisub.Item{nil}, s.Items[p:]...)...)
+			}
+		}
+		R.count("total.write.nil_item")
+		var buf, want bytes.Buffer
+		var err, wantErr error
+		res := guarded(func() { err = f.write(s, &buf) }, 5*time.Second)
+		o := &obs{Suite: "total", Group: "total.write.nil-item." + f.name, NoModel: true, NT: res == "" && err == nil, Input: fmt.Sprintf("write %s seed %d with nil items", f.name, seed),
+			Human: map[string]interface{}{"writer": f.name, "items": len(s.Items), "nil_inserted_at": pos, "list_without_nil": describeRich(clean)}}
+		if res != "" {
+			o.Oracle, o.Sig = f.name+" writer on a cue list with a nil item: "+res, "total-write-nil-item-"+f.name
+		} else if res2 := guarded(func() { wantErr = f.write(clean, &want) }, 5*time.Second); res2 == "" {
+			if (err == nil) != (wantErr == nil) || !bytes.Equal(buf.Bytes(), want.Bytes()) {
+				o.Oracle, o.Sig = fmt.Sprintf("%s writer: a cue list with nil items is not written like the list without them (err %v / %v, %d / %d bytes)", f.name, err, wantErr, buf.Len(), want.Len()), "total-write-nil-item-differs-"+f.name
+			}
 		}
 		R.add(o)
 	}
